@@ -601,6 +601,20 @@ class Ctx:
             if name.startswith("Option::<T>::unwrap_or(Iterator::position("):
                 for f_ in self.position_or_default(name, ge, other):
                     add(f_)
+            if name.startswith("Iterator::count("):
+                # the number of elements an adapter chain lets through is at most the length of the sequence it walks
+                t_c = sy.sym_terms.get(name)
+                it_c = unmut(t_c[2][0]) if t_c is not None and unmut(t_c)[0] == "call" and len(unmut(t_c)[2]) == 1 else None
+                if it_c is not None:
+                    it_c = unmut(unmut(t_c)[2][0])
+                    while it_c[0] == "call" and short(it_c[1]) in ("Iterator::take_while", "Iterator::filter", "Iterator::skip_while", "Iterator::skip", "Iterator::take",
+                                                                  "Iterator::map", "Iterator::copied", "Iterator::cloned", "IntoIterator::into_iter", "Iterator::enumerate") and it_c[2]:
+                        it_c = unmut(it_c[2][0])
+                    if it_c[0] == "call" and short(it_c[1]) == "<impl [T]>::iter" and len(it_c[2]) == 1:
+                        ln_c = seq_len_poly(self, it_c[2][0])
+                        if ln_c is not None:
+                            add(ln_c - Poly.sym(name))
+                add(Poly.sym(name))
             m = re.match(r"^<impl u(\d+)>::from_str_radix\(\[(.*)\.\.(.*)\),(\d+)\)\?$", name)
             if m:
                 a_, b_ = self.poly_by_str(m.group(2)), self.poly_by_str(m.group(3))
